@@ -408,18 +408,60 @@ class Path:
 
 
 # ------------------------------------------------------------------ literals
+_CANON = {ast.NotIn: (ast.In, False), ast.IsNot: (ast.Is, False), ast.NotEq: (ast.Eq, False),
+          ast.In: (ast.In, True), ast.Is: (ast.Is, True), ast.Eq: (ast.Eq, True),
+          ast.Lt: (ast.Lt, True), ast.LtE: (ast.LtE, True)}
+_SYM = {ast.In: 'in', ast.Is: 'is', ast.Eq: '==', ast.Lt: '<', ast.LtE: '<='}
+
+
+def literal(e, truth=True):
+    """Canonical (atom text, polarity) of a non-boolean-operator expression."""
+    while isinstance(e, ast.UnaryOp) and isinstance(e.op, ast.Not):
+        e, truth = e.operand, not truth
+    if isinstance(e, ast.Compare) and len(e.ops) == 1:
+        op = type(e.ops[0])
+        l, r = e.left, e.comparators[0]
+        if op is ast.Gt:          # a > b  ==  b < a
+            op, l, r = ast.Lt, r, l
+        elif op is ast.GtE:       # a >= b ==  b <= a
+            op, l, r = ast.LtE, r, l
+        if op in _CANON:
+            cop, pol = _CANON[op]
+            lt, rt = unparse(l), unparse(r)
+            if cop is ast.Eq and lt > rt:
+                lt, rt = rt, lt
+            return f"{lt} {_SYM[cop]} {rt}", (truth if pol else not truth)
+    return unparse(e), truth
+
+
+def _flatten(e, truth, op_true, out):
+    """Collect literals of a disjunction (op_true=ast.Or under truth=True, i.e. a clause)."""
+    while isinstance(e, ast.UnaryOp) and isinstance(e.op, ast.Not):
+        e, truth = e.operand, not truth
+    if isinstance(e, ast.BoolOp):
+        # truth=True: Or is a disjunction; truth=False: And is a disjunction (De Morgan)
+        if (isinstance(e.op, ast.Or) and truth) or (isinstance(e.op, ast.And) and not truth):
+            return all(_flatten(v, truth, op_true, out) for v in e.values)
+        return False
+    out.append(literal(e, truth))
+    return True
+
+
 class Facts:
-    """Set of atoms known true/false on a path.  Atoms are normalised expression
-    texts.  Assignments kill atoms mentioning the assigned root name; assignments of
+    """Literals (canonical atom -> bool) and clauses (disjunctions of literals) known on a
+    path.  Assignments kill everything mentioning the assigned root name; assignments of
     a constant to a plain name are remembered."""
 
-    def __init__(self, d=None):
+    def __init__(self, d=None, clauses=None):
         self.d: Dict[str, bool] = d or {}
+        self.clauses: List[frozenset] = clauses or []
 
     def copy(self):
-        return Facts(dict(self.d))
+        return Facts(dict(self.d), list(self.clauses))
 
     def known(self, expr) -> Optional[bool]:
+        if isinstance(expr, str):
+            expr = ast.parse(expr, mode='eval').body
         return self._eval(expr)
 
     def _eval(self, e) -> Optional[bool]:
@@ -435,27 +477,31 @@ class Facts:
                     return False
                 if all(v is True for v in vals):
                     return True
+                # not(And) as clause?
+                lits = []
+                if _flatten(e, False, None, lits) and self._clause_entails(lits):
+                    return False
                 return None
             if any(v is True for v in vals):
                 return True
             if all(v is False for v in vals):
                 return False
+            lits = []
+            if _flatten(e, True, None, lits) and self._clause_entails(lits):
+                return True
             return None
-        k = unparse(e)
+        k, pol = literal(e)
         if k in self.d:
-            return self.d[k]
-        if isinstance(e, ast.Compare) and len(e.ops) == 1:
-            l, r = unparse(e.left), unparse(e.comparators[0])
-            op = e.ops[0]
-            inv = {ast.Is: ast.IsNot, ast.IsNot: ast.Is, ast.Eq: ast.NotEq, ast.NotEq: ast.Eq,
-                   ast.In: ast.NotIn, ast.NotIn: ast.In}
-            sym = {ast.Is: 'is', ast.IsNot: 'is not', ast.Eq: '==', ast.NotEq: '!=',
-                   ast.In: 'in', ast.NotIn: 'not in'}
-            if type(op) in inv:
-                k2 = f"{l} {sym[inv[type(op)]]} {r}"
-                if k2 in self.d:
-                    return not self.d[k2]
+            return self.d[k] == pol
         return None
+
+    def _clause_entails(self, lits) -> bool:
+        q = set(lits)
+        for c in self.clauses:
+            rest = {(a, t) for (a, t) in c if not (a in self.d and self.d[a] != t)}
+            if rest <= q:
+                return True
+        return False
 
     def assume(self, expr, truth: bool) -> Optional['Facts']:
         v = self._eval(expr)
@@ -467,30 +513,47 @@ class Facts:
         return f
 
     def _add(self, e, truth) -> bool:
-        if isinstance(e, ast.UnaryOp) and isinstance(e.op, ast.Not):
-            return self._add(e.operand, not truth)
+        while isinstance(e, ast.UnaryOp) and isinstance(e.op, ast.Not):
+            e, truth = e.operand, not truth
         if isinstance(e, ast.BoolOp):
-            if isinstance(e.op, ast.And) and truth:
-                return all(self._add(v, True) for v in e.values)
-            if isinstance(e.op, ast.Or) and not truth:
-                return all(self._add(v, False) for v in e.values)
-            # disjunctive information: if all but one operand known, infer the last
-            vals = [self._eval(v) for v in e.values]
-            unk = [v for v, x in zip(e.values, vals) if x is None]
-            if isinstance(e.op, ast.And) and not truth:
-                if len(unk) == 1 and all(x is True for x in vals if x is not None):
-                    return self._add(unk[0], False)
-            if isinstance(e.op, ast.Or) and truth:
-                if len(unk) == 1 and all(x is False for x in vals if x is not None):
-                    return self._add(unk[0], True)
-            self.d[unparse(e)] = truth
+            if (isinstance(e.op, ast.And) and truth) or (isinstance(e.op, ast.Or) and not truth):
+                return all(self._add(v, truth) for v in e.values)
+            lits = []
+            if _flatten(e, truth, None, lits):
+                live = [(a, t) for (a, t) in lits if not (a in self.d and self.d[a] != t)]
+                if any(a in self.d and self.d[a] == t for (a, t) in lits):
+                    return True
+                if not live:
+                    return False
+                if len(live) == 1:
+                    self.d[live[0][0]] = live[0][1]
+                    self._propagate()
+                    return True
+                self.clauses.append(frozenset(live))
             return True
         if isinstance(e, ast.Constant):
             return bool(e.value) == truth
-        k = unparse(e)
-        if k in self.d and self.d[k] != truth:
+        k, pol = literal(e, truth)
+        if k in self.d and self.d[k] != pol:
             return False
-        self.d[k] = truth
+        self.d[k] = pol
+        return self._propagate()
+
+    def _propagate(self) -> bool:
+        changed = True
+        while changed:
+            changed = False
+            for c in list(self.clauses):
+                if any(a in self.d and self.d[a] == t for (a, t) in c):
+                    self.clauses.remove(c)
+                    continue
+                live = [(a, t) for (a, t) in c if a not in self.d]
+                if not live:
+                    return False
+                if len(live) == 1:
+                    self.d[live[0][0]] = live[0][1]
+                    self.clauses.remove(c)
+                    changed = True
         return True
 
     def _kill(self, root: str):
@@ -498,6 +561,7 @@ class Facts:
         pat = re.compile(r'(?<![\w.])' + re.escape(root) + r'(?![\w])')
         for k in [k for k in self.d if pat.search(k)]:
             del self.d[k]
+        self.clauses = [c for c in self.clauses if not any(pat.search(a) for (a, _t) in c)]
 
     def after_stmt(self, st) -> 'Facts':
         targets = []
@@ -514,14 +578,12 @@ class Facts:
             return self
         f = self.copy()
         for t in targets:
+            if isinstance(t, (ast.Attribute, ast.Subscript)):
+                f._kill(unparse(t))
+                continue
             for n in ast.walk(t):
                 if isinstance(n, ast.Name):
                     f._kill(n.id)
-                    break
-            else:
-                continue
-            if isinstance(t, (ast.Attribute, ast.Subscript)):
-                f._kill(unparse(t))
         if value is not None and len(targets) == 1 and isinstance(targets[0], ast.Name):
             name = targets[0].id
             if isinstance(value, ast.Constant):
@@ -530,11 +592,12 @@ class Facts:
                     f.d[name] = False
                 elif isinstance(value.value, bool):
                     f.d[name] = value.value
-            elif isinstance(value, (ast.List, ast.Dict, ast.Set, ast.Tuple)) and not getattr(value, 'elts', getattr(value, 'keys', [])):
+            elif isinstance(value, (ast.List, ast.Dict, ast.Set, ast.Tuple)) and \
+                    not getattr(value, 'elts', getattr(value, 'keys', [])):
                 f.d[name] = False        # empty container is falsy
-            else:
+            elif isinstance(value, (ast.BoolOp, ast.UnaryOp, ast.Compare, ast.Name)):
                 v = self._eval(value)
-                if v is not None and isinstance(value, (ast.BoolOp, ast.UnaryOp, ast.Compare, ast.Name)):
+                if v is not None:
                     f.d[name] = v
         return f
 
